@@ -77,4 +77,9 @@ let run (args : String.t list) =
           Printf.printf "DETAILS %d %d %s raw=%s\n" c s name raw
       done
     done
+    ;
+    (* state codes of a BGP4MP state change: the u16 <-> State conversion is the identity on numbers (te_state in all_enums:
+       c18 round-trip theorems), and widening the record copies both fields *)
+    let codes = [0; 1; 2; 3; 4; 5; 6; 7; 8; 255; 256; 65535] in
+    List.iter (fun o -> List.iter (fun n -> Printf.printf "STCH %d %d %d %d %d %d\n" o n o n o n) codes) codes
   | _ -> prerr_endline "usage: model c18 obs <domain-file>"; exit 2
